@@ -3,8 +3,8 @@
 WT="$1"; NAME="$2"; PROP="$3"; NEEDS="$4"; CAUGHT="$5"
 HERE="$(cd "$(dirname "$0")/.." && pwd)"
 D="$HERE/seeded/$NAME"; rm -rf "$D"; mkdir -p "$D"
-( cd "$WT" && git diff > "$D/patch.diff" )
-cp -r "$WT/SEED/." "$D/"; ( cd "$WT" && git diff > "$D/patch.diff" )
+( cd "$WT" && git add -N . ":!SEED" 2>/dev/null; git diff -- . ":!SEED" > "$D/patch.diff" )
+cp -r "$WT/SEED/." "$D/"; ( cd "$WT" && git diff -- . ":!SEED" > "$D/patch.diff" )
 python3 - "$D" "$PROP" "$NEEDS" "$CAUGHT" <<'PY'
 import json,sys
 d,prop,needs,caught=sys.argv[1:5]
